@@ -271,7 +271,7 @@ def busy_callback(rng=True, other=True, hooks=("on_batch_end", "on_epoch_end", "
             s_.sample(2, num_samples=3)
             if which == 3:
                 SigmaZ().statistics(s_, num_samples=4, num_chains=2, burn_in=1, steps=1)
-        if other and rng and which == 1:
+        if other and which == 1:
             if box["other"] is None:
                 box["other"] = PositiveWaveFunction(2, 2, gpu=False)
             box["other"].fit(torch.tensor([[0.0, 1.0], [1.0, 1.0]], dtype=torch.double), epochs=1, pos_batch_size=2, lr=0.01)
